@@ -25,7 +25,8 @@ RULE = ("(a) atom histories from one PRNG (VERIF_SEED): 1-3 groups (valid and in
         "live SD id used after each request, more opens afterwards; issue calls while the system refuses the next stream "
         "(fopen interposed): nested opens of an open path in every mode combination, first opens, SDstart, external-element, "
         "Vdata and bit attaches, every live handle read afterwards; annotation ids of all four types over two AN sessions on "
-        "one file id; each answer of the library is judged by the abstract handle table (identity of the object "
+        "one file id, ids obtained by index, by name and by tag/ref; every access-mode sequence (r/w) of attachments of one "
+        "Vdata; each answer of the library is judged by the abstract handle table (identity of the object "
         "computed from the content returned).  (c) file machine histories (open/close/"
         "start/end, shared paths).  (d) the positions NC_open assigns and the results of NC_reset_maxopenfiles are compared "
         "with the model of the open-file table (ct_step).  A case is one call; distinct by (history text, position)")
@@ -217,7 +218,8 @@ USE3 = {"ri": "riread"}
 REL = {"file": "hclose", "aid": "hend", "bit": "hbitend", "vg": "vdetach", "vs": "vsdetach", "gr": "grend",
        "ri": "grendacc", "an": "anend", "sd": "sdend", "sds": "sdendacc"}
 BADCODE = {1: "stale-or-foreign-id-accepted", 2: "valid-call-refused", 3: "wrong-object", 4: "issued-id-aliases-live-handle",
-           5: "file-closed-under-attached-elements", 6: "ids-of-two-files-accepted-together"}
+           5: "file-closed-under-attached-elements", 6: "ids-of-two-files-accepted-together",
+           7: "attachment-issued-against-an-exclusive-write-attachment"}
 
 
 class Shadow:
@@ -340,9 +342,19 @@ class Shadow:
                 self.emit("vattach %d %d %d %s %d" % (s, ps, idx, "w" if w else "r", ok))
         elif kind == "vs":
             vst = self.vstarted.get(book, 0) > 0
-            idx = want if want is not None else r.choice([0, 1])
-            ok = int(good and vst)
-            self.emit("vsattach %d %d %d r %d" % (s, ps, idx, ok))
+            wmode = False
+            if isinstance(want, tuple):                      # (idx, "w"|"r")
+                idx, wmode = want[0], want[1] == "w"
+            else:
+                idx = want if want is not None else r.choice([0, 1])
+                wmode = r.random() < 0.3
+            # a write attachment is exclusive; whether this one conflicts with a live one is the handle table's business
+            others = [c for c, dd in self.slots.items() if dd["live"] and dd["kind"] == "vs" and dd["parent"] == book
+                      and dd.get("idx") == idx]
+            conflict = bool(others) and (wmode or any(self.slots[c].get("w") for c in others))
+            ok = int(good and vst and (not wmode or self.path_w[p]) and not conflict)
+            self.emit("vsattach %d %d %d %s %d" % (s, ps, idx, "w" if wmode else "r", ok))
+            self.slots[s]["w"] = wmode
         elif kind == "gr":
             ok = int(good)
             self.emit("grstart %d %d %d" % (s, ps, ok))
@@ -352,7 +364,7 @@ class Shadow:
         elif kind == "ri":
             idx = want if want is not None else r.choice([0, 1, 1 + p, 2 + p, 7])
             ok = int(good and idx < 2 + p)
-            self.emit("grselect %d %d %d %d" % (s, ps, idx, ok))
+            self.emit("grselect %d %d %d %d%s" % (s, ps, idx, ok, " n" if r.random() < 0.35 else ""))
         elif kind == "ann":
             # want = annotation type (0 data label, 1 data description, 2 file label, 3 file description) or ("new", type)
             if isinstance(want, tuple):
@@ -369,11 +381,14 @@ class Shadow:
                 if (p, t) in self.created_ann:
                     idx = 7                       # indices of this type have shifted: only the refusal is meaningful
                     ok = 0
-                self.emit("anselect %d %d %d %d %d" % (s, ps, idx, ok, t))
+                if r.random() < 0.4:
+                    self.emit("antagref %d %d %d %d %d" % (s, ps, idx, ok, t))
+                else:
+                    self.emit("anselect %d %d %d %d %d" % (s, ps, idx, ok, t))
         elif kind == "sds":
             idx = want if want is not None else r.choice([0, 1, 1 + p, 2 + p, 7])
             ok = int(good and idx < 2 + p)
-            self.emit("sdselect %d %d %d %d" % (s, ps, idx, ok))
+            self.emit("sdselect %d %d %d %d%s" % (s, ps, idx, ok, " n" if r.random() < 0.35 else ""))
         elif kind == "dim":
             ok = int(good)
             self.emit("sddim %d %d %d" % (s, ps, ok))
@@ -433,6 +448,11 @@ class Shadow:
         if as_kind is not None and as_kind != d["kind"]:
             return
         if not d["live"]:
+            if k == "an":            # the AN id is the file id: ANend on an ended session ends a later one of that file
+                for c, dd in self.slots.items():
+                    if dd["live"] and dd["kind"] == "an" and dd["parent"] == d["parent"]:
+                        dd["live"] = False
+                self.kill_orphans()
             return
         if k == "file" and self.children(s, BLOCKING):
             return                                    # refusal expected
@@ -771,6 +791,40 @@ def ann_history(r, k):
     return sh.ops
 
 
+def vsmode_history(r, k):
+    """one Vdata attached several times in every combination and order of access modes (r r, r w, w r, w w, r r w, ...),
+    through one file id and through two ids of the path; admissible attachments must work (content), the others must
+    be refused; every release order; then the file must close"""
+    sh = Shadow(r)
+    p = k % 3
+    f = sh.hopen(p, "w")
+    g = sh.hopen(p, "w") if k % 4 == 3 else None
+    sh.vstart(f)
+    if g is not None:
+        sh.vstart(g)
+    idx = k % 2
+    combos = ["rw", "wr", "ww", "rrw", "rwr", "wrr", "rr", "wrw"]
+    modes = combos[(k // 2) % len(combos)]
+    hs = []
+    for j, mch in enumerate(modes):
+        hs.append(sh.child("vs", g if (g is not None and j == 1) else f, (idx, mch)))
+        for h in hs:
+            sh.use(h, alt=True)
+    other = sh.child("vs", f, (1 - idx, r.choice("rw")))
+    sh.use(other, alt=True)
+    order = [h for h in hs + [other]]
+    r.shuffle(order)
+    for h in order:
+        sh.release(h)
+        for x in hs + [other]:
+            sh.use(x, alt=(r.random() < 0.5))
+        if r.random() < 0.3:
+            hs.append(sh.child("vs", f, (idx, r.choice("rw"))))
+    teardown(sh)
+    sh.use(f)
+    return sh.ops
+
+
 def deny_history(r, k):
     """issue calls that the system refuses (the stream the library tries to open is denied): nested opens of an open path
     in every mode combination, first opens, SDstart, external-element access -- with files, access elements, Vdatas and
@@ -887,12 +941,13 @@ MIX_CORPUS = [
 
 
 ISSUE_KIND = {"hopen": "file", "hstart": "aid", "hbit": "bit", "vattach": "vg", "vsattach": "vs", "grstart": "gr",
-              "grselect": "ri", "anstart": "an", "anselect": "ann", "ancreate": "ann", "sdstart": "sd", "sdselect": "sds", "sddim": "dim",
+              "grselect": "ri", "anstart": "an", "anselect": "ann", "ancreate": "ann", "antagref": "ann", "sdstart": "sd", "sdselect": "sds", "sddim": "dim",
               "lit": "lit", "copy": "lit"}
 # calls that look the id up without checking its atom group first (hfile.c, hbitio.c, mfan.c, Vstart/Vend)
 UNTYPED = {"hclose": "file", "hfinq": "file", "vstart": "file", "vend": "file", "hstart": "file", "hbit": "file",
            "vattach": "file", "vsattach": "file", "grstart": "file", "anstart": "file", "hend": "aid", "hinq": "aid",
            "hread": "aid", "hbitend": "bit", "hbitrd": "bit", "aninfo": "an", "anend": "an", "anselect": "an",
+           "antagref": "an", "ancreate": "an",
            "annlen": "ann", "anendacc": "ann"}
 ATOM_KINDS = {"file", "aid", "bit", "vg", "vs", "gr", "ri", "an", "ann"}
 GROUP_OF_KIND = {"file": 2, "aid": 1, "bit": 7, "vg": 3, "vs": 4, "gr": 5, "ri": 6, "an": 2, "ann": 8}
@@ -943,7 +998,7 @@ def signature_of(hist, i, line, verdict_code):
         return "sd-positional-id-accepted-after-release:" + op
     if verdict_code == 1 and op == "anendacc":
         return "anendaccess-accepts-any-id"
-    if verdict_code == 1 and op in ("aninfo", "anend", "anselect"):
+    if verdict_code == 1 and op in ("aninfo", "anend", "anselect", "antagref", "ancreate"):
         return "an-id-is-the-file-id:" + op
     return None
 
@@ -968,6 +1023,8 @@ def run_mixed(ctx):
         hists.append(("deny", deny_history(r, k)))
     for k in range(16 if quick else 160):
         hists.append(("ann", ann_history(r, k)))
+    for k in range(32 if quick else 320):
+        hists.append(("vsmode", vsmode_history(r, k)))
     for k in range(150 if quick else 3000):
         hists.append(("random", rand_history(r, r.randrange(15, 70))[0]))
     for k in range(12 if quick else 150):
